@@ -34,6 +34,24 @@ def mc_step(work, module, cfg, workers=8, timeout=900, xmx="6g", extra=(), scope
     return {"module": module, "cfg": cfg, "states": r["distinct"], "transitions": r["generated"], "wall_s": round(r["wall"], 1)}
 
 
+def sim_step(work, module, cfg, num, depth, seed, must=None, workers=8, timeout=600):
+    """TLC in simulation mode (random behaviours of bounded length) for models whose state space is unbounded.
+    must: an 'Invariant X is violated' line that HAS to appear (vacuity guard); otherwise any violation is a
+    failure of the model itself (exit 2, never a verdict on the code)."""
+    r = vlib.tlc_run(work.dir, module, work.path(cfg), workers=workers, timeout=timeout, xmx="3g",
+                     extra=("-simulate", "num=%d" % num, "-depth", str(depth), "-seed", str(int(seed))))
+    m = re.search(r"The number of states generated: (\d+)", r["out"]) or re.search(r"Progress: (\d+) states checked", r["out"])
+    n = int(m.group(1)) if m else 0
+    if must:
+        if must not in r["out"]:
+            raise Infra("vacuity guard %s/%s was not refuted in simulation: %s" % (module, cfg, r["out"][-500:]))
+        return {"module": module, "cfg": cfg + " (reachability, refuted as required; simulation)", "states": n, "transitions": n}
+    if r["rc"] != 0 or "is violated" in r["out"] or n == 0:
+        raise Infra("model %s/%s did not pass in simulation (rc=%s):\n%s" % (module, cfg, r["rc"], r["out"][-3000:]))
+    return {"module": module, "cfg": cfg + " (simulation num=%d depth=%d x %d workers)" % (num, depth, workers), "states": n,
+            "transitions": n, "wall_s": round(r["wall"], 1)}
+
+
 # =========================================================================== responder campaigns
 def _prefix_scenario(scs, sc):
     """all scenarios of the shard up to and including sc, as one scenario (for position-dependent failures)"""
@@ -468,7 +486,10 @@ def c11(prop, tier, seed, t0):
 def c12(prop, tier, seed, t0):
     import acampaigns
     return automata_check(prop, tier, seed, t0, {"C12"}, acampaigns.campaign_c12(seed, tier), mc=[("TickPacing.tla", "TickPacing.cfg")],
-                          pre_mcs=lambda w: [must_violate(w, "TickPacing.tla", "TickPacingReach.cfg", "Invariant NeverSends is violated")])
+                          pre_mcs=lambda w: [must_violate(w, "TickPacing.tla", "TickPacingReach.cfg", "Invariant NeverSends is violated"),
+                                             # the exact model of tick and frame flow (bound to the code by XTICK) satisfies C12 too
+                                             sim_step(w, "TickExactMC.tla", "TickExactReach.cfg", 2000, 80, seed, must="Invariant NeverTwice is violated"),
+                                             sim_step(w, "TickExactMC.tla", "TickExactMC.cfg", 4000 if tier == "quick" else 100000, 80 if tier == "quick" else 150, seed)])
 
 
 def c13(prop, tier, seed, t0):
